@@ -60,7 +60,7 @@ def showTrip (t : Triplet) : String := s!"{t.1}.{t.2.1}.{t.2.2}"
 
 def showEv : Ev → String
   | .def_ h a m fs ds => s!" D{h}.{a}.{m}({";".intercalate (fs.map showTrip)})({";".intercalate (ds.map showTrip)})"
-  | .msg h m nf nd => s!" R{h}.{m}.{nf}.{nd}"
+  | .msg h m nf nd _ _ => s!" R{h}.{m}.{nf}.{nd}"
   | .seq sz pv pf ds hc fc n => s!" S{sz}.{pv}.{pf}.{ds}.{hc}.{fc}.{n}"
 
 def showOut (o : Out) : String :=
